@@ -32,43 +32,56 @@ def run(ctx):
 
     check_arm_purity(ctx, "E2-A", P, with_mappers(P, fns))
     check_dispatching(ctx, "E2-A", P, fns)
-    # finalize: only diagonal pairs reach generate_proof
+    from . import spec as SP
+
+    # finalize: only diagonal pairs reach generate_proof (decided per (commitment variant, signature variant) pair)
     f = P.fns.get("ProofCommitment<C>::finalize")
     if f is not None:
-        ev = evaluate(f)
-        from .common import scheme_context
-
-        for bb, s in sorted(ev.sites.items()):
-            if s.callee[0] == "BlsSignatureProof::generate_proof":
-                sc = scheme_context(P, f, bb)
-                vs = {(a, v) for a, v, _, _ in sc}
-                names = {v for a, v in vs if isinstance(v, str)}
-                ctx.ob("E2.diagonal", "finalize@%s" % sorted(names), len(names) == 1 and len(sc) == 2, "generate_proof is reached only when commitment and signature carry the same variant: %s" % sorted(map(str, vs)), where=where(f, bb))
-                a = [strip_sites(x) for x in s.args]
+        npairs = 0
+        for assume in SP.assumptions(P, f):
+            if len(assume) < 2:
+                continue
+            sev = evaluate(f, assume)
+            V = SP.variant_of(assume)
+            label = "/".join(v for _, v in sorted(assume.items()))
+            calls = [x for _, x in sorted(sev.sites.items()) if x.callee[0] == "BlsSignatureProof::generate_proof"]
+            npairs += 1
+            if V is None:
+                ctx.ob("E2.diagonal", "finalize@%s" % label, not calls, "commitment and signature of different variants (%s) never reach generate_proof (%d call(s))" % (label, len(calls)), where=where(f))
+                continue
+            ctx.ob("E2.diagonal", "finalize@%s" % label, len(calls) == 1, "matching variants reach generate_proof exactly once (%d)" % len(calls), where=where(f))
+            for c in calls:
+                a = [strip_sites(x) for x in c.args]
                 roots = [F.projection_root(x) for x in a]
-                ctx.ob("E6.pass", "finalize->generate_proof@%s" % sorted(names), all(roots) and [r[0].a[1] for r in roots] == ["self", "x", "y", "sig"], "generate_proof receives (commitment, x, y, signature) as pure projections: %s" % [show(x, 3) for x in a], where=where(f, bb))
-    # wrappers forward their inputs
+                ctx.ob("E6.pass", "finalize->generate_proof@%s" % V, all(roots) and [r[0].a[1] for r in roots] == ["self", "x", "y", "sig"], "generate_proof receives (commitment, x, y, signature) as pure projections: %s" % [show(x, 3) for x in a], where=where(f, c.bb))
+        ctx.floor("E2.diagonal", "(commitment variant, signature variant) pairs", npairs, 9)
+    # wrappers forward their inputs (per scheme assumption)
     for fk, sink, want in (
-        ("ProofOfKnowledge<C>::verify", "BlsSignatureProof::verify", ["self", "self", "pk", "y", "msg", None]),
-        ("ProofOfKnowledgeTimestamp<C>::verify", "BlsSignatureProof::verify_timestamp_proof", ["self", "self", "pk", "self", "timeout_ms", "msg", None]),
-        ("ProofOfKnowledgeTimestamp<C>::generate", "BlsSignatureProof::generate_timestamp_proof", ["msg", None, "signature"]),
-        ("ProofCommitment<C>::generate", "BlsSignatureProof::generate_commitment", ["msg", None]),
+        ("ProofOfKnowledge<C>::verify", "BlsSignatureProof::verify", ["self", "self", "pk", "y", None, None]),
+        ("ProofOfKnowledgeTimestamp<C>::verify", "BlsSignatureProof::verify_timestamp_proof", ["self", "self", "pk", "self", "timeout_ms", None, None]),
+        ("ProofOfKnowledgeTimestamp<C>::generate", "BlsSignatureProof::generate_timestamp_proof", [None, None, "signature"]),
+        ("ProofCommitment<C>::generate", "BlsSignatureProof::generate_commitment", [None, None]),
     ):
         f = P.fns.get(fk)
         if f is None:
             continue
-        ev = evaluate(f)
         n = 0
-        for bb, s in sorted(ev.sites.items()):
-            if s.callee[0] == sink:
+        for assume in SP.assumptions(P, f):
+            V = SP.variant_of(assume)
+            if not assume or V is None:
+                continue
+            sev = evaluate(f, assume)
+            calls = [x for _, x in sorted(sev.sites.items()) if x.callee[0] == sink]
+            ctx.ob("E6.pass.anchor", "%s@%s" % (fk, V), len(calls) == 1, "scheme %s reaches %s exactly once (%d)" % (V, sink, len(calls)), where=where(f))
+            for c in calls:
                 n += 1
                 got = []
-                for x in s.args:
+                for x in c.args:
                     r = F.projection_root(strip_sites(x))
                     got.append(r[0].a[1] if r else None)
                 ok = all(w is None or w == g for w, g in zip(want, got)) and len(got) == len(want)
-                ctx.ob("E6.pass", "%s->%s#bb%d" % (fk, sink.split("::")[-1], bb), ok, "arguments are projections of %s (found %s)" % (want, got), where=where(f, bb))
-        ctx.ob("E6.pass.anchor", fk, n == 3, "%d calls to %s (one per scheme arm)" % (n, sink), where=where(f))
+                ctx.ob("E6.pass", "%s->%s@%s" % (fk, sink.split("::")[-1], V), ok, "arguments are projections of %s (found %s)" % (want, got), where=where(f, c.bb))
+        ctx.floor("E6.pass", "schemes of %s reaching %s" % (fk, sink.split("::")[-1]), n, 3)
     # timestamp field is the one returned by the generator
     f = P.fns.get("ProofOfKnowledgeTimestamp<C>::generate")
     if f is not None:
@@ -83,6 +96,7 @@ def run(ctx):
             ts = strip_sites(inner[0].a[1][1])
             good = good and ts.op == "field" and ts.a[1] == "2" and any(s.op == "call" and B.cname(s) == "BlsSignatureProof::generate_timestamp_proof" for s in subterms(ts))
         ctx.ob("E6.pass", "ProofOfKnowledgeTimestamp<C>::generate/timestamp", good, "stored timestamp is the third component returned by generate_timestamp_proof", where=where(f))
+    check_pok_signer_agreement(ctx, P)
     # construction
     PR.check_compute_y(ctx, "E5.challenge", P)
     PR.check_timestamp_sides(ctx, "E3.challenge", P)
@@ -119,3 +133,46 @@ def run(ctx):
     # E8: no abort for any timestamp
     A.check_aborts(ctx, "E8", P, ["ProofOfKnowledgeTimestamp<C>::verify"], scope="C10")
     ctx.assume("SystemTime arithmetic: UNIX_EPOCH + Duration::from_millis(u64) cannot overflow the platform's SystemTime range on 64-bit Linux (std contract: u64 ms < 2^63 s)")
+
+
+def check_pok_signer_agreement(ctx, P):
+    """Sibling agreement signer <-> proof of knowledge: for every scheme arm the point the commitment and the
+    verifier hash (tag, framing of the message) is the point that scheme's signer hashed, and the three
+    stages (generate / timestamp-generate / verify / timestamp-verify) of one scheme use the same tag."""
+    from . import constructions as K
+    from .common import SCHEME_TRAITS, scheme_context, TAG_CONSTS
+    from .c13 import _canon
+
+    rows = K.core_call_table(ctx, P)
+    signer = {}
+    for r in rows:
+        if r["sink"].endswith("core_sign") and r["fn"].name == "sign":
+            signer[SCHEME_TRAITS[r["fn"].trait_default_of]] = (r["tag"], _canon(K._canon_nf(r)))
+    from . import spec as SP
+
+    sinks = {"BlsSignatureProof::generate_commitment": (0, 1), "BlsSignatureProof::generate_timestamp_proof": (0, 1), "BlsSignatureProof::verify": (4, 5), "BlsSignatureProof::verify_timestamp_proof": (5, 6)}
+    n = 0
+    for fk in FNS:
+        f = P.fns.get(fk)
+        if f is None:
+            continue
+        for assume in SP.assumptions(P, f):
+            sch = SP.variant_of(assume)
+            if not assume or sch is None:
+                continue
+            ev = evaluate(f, assume)
+            for bb, s in sorted(ev.sites.items()):
+                if s.callee[0] not in sinks:
+                    continue
+                mi, ti = sinks[s.callee[0]]
+                tagt = B.peel(strip_sites(SP.spec_inline(P, ev, s.args[ti], 2)))
+                tag = tagt.a[0] if tagt.op == "assoc" else None
+                msgt = SP.spec_inline(P, ev, s.args[mi], 2, stop=lambda g: not K.local_inliner(P)(g))
+                msg = _canon(B.show_nf(B.nf(ev, msgt)))
+                want = signer.get(sch)
+                n += 1
+                ok_tag = want is not None and tag == want[0]
+                ctx.ob("E3.signer.tag", "%s/%s" % (fk, sch), ok_tag, "scheme %s: %s hashes under %s; the signer hashes under %s" % (sch, s.callee[0].split("::")[-1], tag if tag else show(tagt, 3), want[0] if want else None), where=where(f, bb))
+                ok_msg = want is not None and msg == want[1]
+                ctx.ob("E3.signer.msg", "%s/%s" % (fk, sch), ok_msg, "scheme %s: %s hashes `%s`; the signer hashes `%s` (for the proof to verify both must be the same point)" % (sch, s.callee[0].split("::")[-1], msg, want[1] if want else None), where=where(f, bb), sample={"scheme": sch, "pok": msg, "signer": want[1] if want else None})
+    ctx.floor("E3.signer", "scheme arms of the proof-of-knowledge wrappers", n, 12)
